@@ -20,6 +20,7 @@ namespace vf {
         S_MUTEX_UNLOCK = 31,       // mutex::unlock after clearing the owner, before notify
         S_SEM_SIGNAL = 40,         // counting_semaphore::signal between value update and notify
         S_SEM_WAIT = 41,           // counting_semaphore::wait entry
+        S_SEM_SIGNAL_RELOCK = 42,  // counting_semaphore::signal: one waiter notified, lock released, before re-taking it for the next
         S_LATCH_NOTIFY = 50,       // latch before the notify loop
         S_BARRIER_ARRIVE = 51,     // barrier arrive between ticket CASes
         S_THREAD_JOIN = 60,        // thread::join between callback registration and suspend
@@ -35,6 +36,7 @@ namespace vf {
         S_DQ_STABILIZE = 92,       // stabilize_left/right after loading the neighbour link
         S_DQ_STABILIZE_CAS = 93,   // stabilize before the final anchor CAS
         S_DQ_POP_RECHECK = 94,     // pop: anchor re-checked, before reading the neighbour link
+        S_SPINLOCK_LOCK = 100,     // concurrency::detail::spinlock::lock entry (every internal lock acquisition; E-vt: a decision point)
         S_RW_ADD_OP_STATE = 110,   // async_rw_mutex add_op_state before the CAS
         S_RW_DONE_BEFORE = 111,    // done() before the exchange
         S_RW_DONE_AFTER = 112,     // done() after the exchange
